@@ -23,8 +23,16 @@ use crate::verif_replay_kani as kani;
 
 pub(crate) const CAP: usize = 24;
 
+/// the input bytes live in their own static, apart from the script's control state (position,
+/// chunking): copying symbolic bytes out of an object that also holds the control fields makes CBMC
+/// stop folding those fields (measured on the bridge harnesses, DESIGN.md 9.6)
+static mut INPUT: [u8; CAP] = [0; CAP];
+#[allow(static_mut_refs)]
+fn input() -> &'static [u8; CAP] {
+    unsafe { &INPUT }
+}
+
 pub(crate) struct Script {
-    pub data: [u8; CAP],
     pub len: usize,
     pub pos: usize,
     pub chunk: usize,
@@ -36,7 +44,8 @@ pub(crate) struct Script {
 }
 impl Script {
     pub(crate) fn new(data: [u8; CAP], len: usize, chunk: usize, stall: bool) -> Self {
-        Script { data, len, pos: 0, chunk, stall, stalled: false, out: [0; 24], out_n: 0, flushes: 0 }
+        unsafe { INPUT = data };
+        Script { len, pos: 0, chunk, stall, stalled: false, out: [0; 24], out_n: 0, flushes: 0 }
     }
     fn gate(&mut self) -> bool {
         if self.stall && !self.stalled {
@@ -60,7 +69,7 @@ impl AsyncRead for Script {
         if k > buf.remaining() {
             k = buf.remaining();
         }
-        buf.put_slice(&me.data[me.pos..me.pos + k]);
+        buf.put_slice(&input()[me.pos..me.pos + k]);
         me.pos += k;
         Poll::Ready(Ok(()))
     }
@@ -75,7 +84,7 @@ impl AsyncBufRead for Script {
         if k > me.chunk {
             k = me.chunk;
         }
-        Poll::Ready(Ok(&me.data[me.pos..me.pos + k]))
+        Poll::Ready(Ok(&input()[me.pos..me.pos + k]))
     }
     fn consume(self: Pin<&mut Self>, amt: usize) {
         let me = self.get_mut();
@@ -457,9 +466,9 @@ macro_rules! h {
 }
 h!(c18_s5_req_domain_l0, 60, s5_domain::<0>(1, false));
 h!(c18_s5_req_domain_l1_stall, 60, s5_domain::<1>(1, true));
-h!(c18_s5_req_domain_l3, 60, s5_domain::<3>(24, false));
+h!(c18_s5_req_domain_l3_whole, 60, s5_domain::<3>(24, false));
 h!(c18_s5_req_domain_l3_c2, 60, s5_domain::<3>(2, false));
-h!(c18_s5_req_ipv4, 60, s5_ipv4(24, false));
+h!(c18_s5_req_ipv4_whole, 60, s5_ipv4(24, false));
 h!(c18_s5_req_ipv4_c1_stall, 60, s5_ipv4(1, true));
 h!(c18_s5_req_ipv6_loopback, 60, s5_ipv6([0, 0, 0, 0, 0, 0, 0, 0, 0, 0, 0, 0, 0, 0, 0, 1], b"::1"));
 h!(c18_s5_req_ipv6_doc, 60, s5_ipv6([0x20, 0x01, 0x0d, 0xb8, 0, 0, 0, 0, 0, 0, 0, 0, 0, 0, 0, 1], b"2001:db8::1"));
